@@ -101,6 +101,29 @@ def queryIdsC (pf : PagingFacts) (st : BoltStore) (q : Query) : Except SortErr (
 def queryWithCursorC (pf : PagingFacts) (st : BoltStore) (q : Query) (provider : Bool → Option (List Row)) :
     Except SortErr (List Row × Int) := scanCursor pf st q provider
 
+/-! ### the same entry points for an arbitrary filter node, given by its evaluation on `ast.Symbols` -/
+
+def BoltStore.envP (st : BoltStore) (ev : Symbols → Bool) : ScanEnv Row :=
+  { childSkip := st.childSkip, pred := fun r => ev (boltSymbols r) }
+
+def scanCursorP (pf : PagingFacts) (st : BoltStore) (ev : Symbols → Bool) (sort : List SortField) (paging : Paging)
+    (provider : Bool → Option (List Row)) : Except SortErr (List Row × Int) :=
+  match newScanner sort with
+  | .index fwd => .ok (idxScan pf (st.envP ev) paging (provider fwd))
+  | .sorting =>
+    match newRowComparator st.schema sort with
+    | .error e => .error e
+    | .ok c => .ok (sortScan pf c (st.envP ev) paging (provider true))
+
+def queryIdsCP (pf : PagingFacts) (st : BoltStore) (ev : Symbols → Bool) (sort : List SortField) (paging : Paging) :
+    Except SortErr (List Row × Int) :=
+  match st.bucket with
+  | none => .ok ([], 0)
+  | some rows => scanCursorP pf st ev sort paging (fun fwd => some (bucketCursor rows fwd))
+
+theorem queryIdsC_eq_P (pf : PagingFacts) (st : BoltStore) (q : Query) :
+    queryIdsC pf st q = queryIdsCP pf st (fun s => evalFilter s q.filter) q.sort q.paging := rfl
+
 /-- `IterateIds(tx, query)` drained by the caller; the sort fields play no role -/
 def iterateIds (pf : PagingFacts) (st : BoltStore) (q : Query) : List Row :=
   match st.bucket with
